@@ -443,7 +443,24 @@ var Catalogue = []Mutation{
 	}},
 	// ---------------------------------------------------------------- attester slashings
 	{"ASL-NOT-SLASHABLE", "pabcd", func(m *MutCtx) bool {
-		return mutASL(m, func(s *refspec.AttesterSlashing) bool { s.A2.Data = s.A1.Data; m.signIndexed(&s.A2); return true })
+		return mutASL(m, func(s *refspec.AttesterSlashing) bool {
+			// identical data; or equal sources and different targets (neither a double nor a surround vote), with the
+			// later target in attestation 2 or in attestation 1
+			d := s.A1.Data
+			switch m.Pr.n(3) {
+			case 0:
+				s.A2.Data = d
+			case 1:
+				s.A2.Data = d
+				s.A2.Data.Target.Epoch++
+			default:
+				s.A2.Data = d
+				s.A1.Data.Target.Epoch++
+				m.signIndexed(&s.A1)
+			}
+			m.signIndexed(&s.A2)
+			return true
+		})
 	}},
 	{"ASL-UNSORTED", "pabcd", func(m *MutCtx) bool {
 		return mutASL(m, func(s *refspec.AttesterSlashing) bool {
